@@ -39,6 +39,28 @@ class Names:
                 if isinstance(v, dict) and v.get("t") == "block":
                     self.by_hash[v["hash"]] = bytes.fromhex(v["hex"])
 
+    def add_source(self, walk_entries, tree, opts):
+        """contents a backup of this source with these options can produce as blocks: the
+        chunks of every large file and every run of consecutive small files (walk order) up to
+        the first that reaches max_block_size.  Needed for blocks whose write never happened
+        (failed or killed after its sub-directory was made)."""
+        data = tree_data(tree)
+        mbs = max(1, opts.get("mbs", 20 << 20))
+        sfc = opts.get("sfc", 1 << 20)
+        files = [data.get(e["apath"], b"") for e in walk_entries if e["kind"] == "File"]
+        small = [d for d in files if 0 < len(d) <= sfc]
+        for d in files:
+            if len(d) > sfc:
+                for i in range(0, len(d), mbs):
+                    self.add(d[i:i + mbs])
+        for i in range(len(small)):
+            buf = b""
+            for j in range(i, len(small)):
+                buf += small[j]
+                self.add(buf)
+                if len(buf) >= mbs:
+                    break
+
     def add_tree(self, tree, cfgs):
         """Every block content a backup of this tree could produce is not known in advance;
         the single-file chunks are (the model may compute them)."""
@@ -396,7 +418,7 @@ class History:
         self.state = f"a_{self.cid}_{self.k}"
         self.lines.append(f"Definition {self.state} : Store.arch := {g_arch(arch, self.names)}.")
 
-    def add(self, step, res, rules=None, mode=0, crash=None):
+    def add(self, step, res, rules=None, mode=0, crash=None, fail=None):
         """Model one executed step.  rules: list of (trace item, nth, fault)."""
         op = step["op"]
         if op == "mktree" and step.get("path", "src") == "src":
@@ -422,6 +444,7 @@ class History:
         elif op == "backup":
             if self.walk is None or self.src_tree is None:
                 return
+            self.names.add_source(self.walk, self.src_tree, step.get("opts", {}))
             prog = f"(backup_prog pre {g_cfg(step.get('opts', {}))} {g_sitems(self.walk, self.src_tree)})"
             summ, kind = "bsum", "backup"
         elif op == "delete":
@@ -442,6 +465,8 @@ class History:
         s = f"s_{self.cid}_{self.k}"
         if crash is not None:
             self.lines.append(f"Definition {s} := run_phi pre {prog} {self.state} (crash_at {crash[0]} {gallina_bool(crash[1])}).")
+        elif fail is not None:
+            self.lines.append(f"Definition {s} := run_phi pre {prog} {self.state} (fail_at {fail[0]} {KIND.get(fail[1], 'EOther')}).")
         else:
             self.lines.append(f"Definition {s} := run_rules pre {prog} {self.state} {rules_g} [].")
         name = f"c_{self.cid}_{self.k}_{op}"
